@@ -249,7 +249,10 @@ class LifecycleScenario(Scenario):
                     out.append(self.viol(env, 'cleanup-while-handler-runs', f"cleanup started at {t_cl} while a change handler was still running", clause='cleanup-last'))
                 for t, p in enters:
                     ex = exits.get(p['inst'])
-                    if (ex is None or ex > t_cl) and not (d.get('timeout') is not None and p['inst'] in flags and t_cl >= flags[p['inst']] + (d.get('backoff') or 0.0) + d['timeout']):
+                    # (without a cancellation timeout the daemon stopper gives the daemon up right after the backoff - documented: such a daemon
+                    # is ended by the final sweep of the exiting operator, which the rule above holds it to)
+                    given_up = p['inst'] in flags and t_cl >= flags[p['inst']] + (d.get('backoff') or 0.0) + (d.get('timeout') or 0.0)
+                    if (ex is None or ex > t_cl) and not given_up:
                         out.append(self.viol(env, 'cleanup-while-daemon-runs', f"cleanup started at {t_cl} while daemon instance {p['inst']} had neither exited nor been abandoned",
                                              clause='cleanup-last'))
             elif t_started is not None and not stopped_early and exit_ev[1]['how'] in ('returned', 'raised') and P.get('cleanup', [['ok']]):
@@ -268,12 +271,13 @@ def scenarios(tier: str) -> tuple[list[LifecycleScenario], list[LifecycleScenari
         for trig in ('stop', 'cancel'):
             for at in ((0.0, 0.5, 2.5, 12.0) if st != [['ok']] else trigger_times):
                 scripted_.append(LifecycleScenario(startup=st, daemon=daemons[2], user=[(at, trig)], horizon=at + 40.0))
-    for dm in daemons:
+    for dm in daemons + [dict(reaction='cancel')]:
         for trig, at in itertools.product(('stop', 'cancel'), (1.0, 2.0, 5.0)):
             for cl in ([['ok']], [['temp1', 'ok']], [['ok'], ['perm']]):
                 scripted_.append(LifecycleScenario(daemon=dm, cleanup=cl, user=[(at, trig)], horizon=at + 40.0))
     # failures of essential tasks
-    for dm in (None, daemons[2]):
+    # (incl. a daemon that leaves only when cancelled and has no cancellation timeout: it is the final sweep of run_tasks that ends it)
+    for dm in (None, daemons[2], dict(reaction='cancel'), dict(reaction='cancel', exit_delay=1.0)):
         for what, at in itertools.product(('break:kopfexamples', 'break:customresourcedefinitions', 'break:clusterkopfpeerings'), (1.0, 5.0)):
             scripted_.append(LifecycleScenario(daemon=dm, user=[(at, what), (at + 1.0, 'create-b')], horizon=at + 45.0))
         scripted_.append(LifecycleScenario(daemon=dm, bad_memo=True, user=[(3.0, 'create-b')], horizon=45.0))
